@@ -25,9 +25,9 @@ type symCtx struct {
 
 type symEval struct {
 	p       *core.Program
-	choice  map[interface{}]int // *ssa.BasicBlock (phi block) -> predecessor index; *ssa.Function -> return index
-	pending interface{}         // first unresolved choice met
-	npend   int                 // number of alternatives of pending
+	choice  map[interface{}]int     // *ssa.BasicBlock (phi block) -> predecessor index; *ssa.Function -> return index
+	pending interface{}             // first unresolved choice met
+	npend   int                     // number of alternatives of pending
 	ctxOf   map[interface{}]*symCtx // the context in which a chosen phi block was met
 	depth   int
 	vars    func(prm *ssa.Parameter, idx int64) eng.Poly
@@ -57,12 +57,40 @@ func ratConst(c *ssa.Const) (eng.RatFn, bool) {
 
 func (se *symEval) returnsOf(g *ssa.Function) []*ssa.Return {
 	var out []*ssa.Return
+	finite := finiteReach(g)
 	for _, b := range g.Blocks {
-		if ret, ok := b.Instrs[len(b.Instrs)-1].(*ssa.Return); ok {
+		if ret, ok := b.Instrs[len(b.Instrs)-1].(*ssa.Return); ok && finite[b] {
 			out = append(out, ret)
 		}
 	}
 	return out
+}
+
+// finiteReach: the blocks of g reachable without taking the true edge of a math.IsNaN test (the properties are
+// stated for finite input; a branch taken only for NaN ordinates is outside them).
+func finiteReach(g *ssa.Function) map[*ssa.BasicBlock]bool {
+	blocked := eng.EdgeSet{}
+	for _, b := range g.Blocks {
+		ifi := eng.BlockIf(b)
+		if ifi == nil {
+			continue
+		}
+		cond, edge := ifi.Cond, 0
+		for {
+			u, ok := cond.(*ssa.UnOp)
+			if !ok || u.Op != token.NOT {
+				break
+			}
+			cond, edge = u.X, 1-edge
+		}
+		if c, ok := cond.(*ssa.Call); ok && eng.IsCallTo(c, "math", "IsNaN") {
+			blocked[[2]int{b.Index, edge}] = true
+		}
+	}
+	if len(g.Blocks) == 0 {
+		return nil
+	}
+	return eng.Reachable(g.Blocks[0], blocked)
 }
 
 func (se *symEval) sym(v ssa.Value, ctx *symCtx) (eng.RatFn, bool) {
@@ -328,8 +356,12 @@ func closestPointsOrthogonalRule(p *core.Program, r *core.Report, rule string) {
 	enumerate(map[interface{}]int{})
 	one := big.NewRat(1, 1)
 	_ = one
-	dirU := func(k int64) eng.Poly { return eng.PolyVar(fmt.Sprintf("B%d", k)).Add(eng.PolyVar(fmt.Sprintf("A%d", k)), -1) }
-	dirV := func(k int64) eng.Poly { return eng.PolyVar(fmt.Sprintf("D%d", k)).Add(eng.PolyVar(fmt.Sprintf("C%d", k)), -1) }
+	dirU := func(k int64) eng.Poly {
+		return eng.PolyVar(fmt.Sprintf("B%d", k)).Add(eng.PolyVar(fmt.Sprintf("A%d", k)), -1)
+	}
+	dirV := func(k int64) eng.Poly {
+		return eng.PolyVar(fmt.Sprintf("D%d", k)).Add(eng.PolyVar(fmt.Sprintf("C%d", k)), -1)
+	}
 	parallel := func(f eng.RatFn) (eng.RatFn, bool) {
 		ok := true
 		for k := int64(0); k < 3 && ok; k++ {
@@ -427,4 +459,264 @@ func closestPointsOrthogonalRule(p *core.Program, r *core.Report, rule string) {
 			fmt.Sprintf("on the way %v the two points the distance is measured between do not satisfy the normal equations ((P1-P2).(B-A) == 0: %v, (P1-P2).(D-C) == 0: %v): s and t are not the parameters of the closest approach of the two lines", parts, du.IsZero(), dv.IsZero()))
 	}
 	r.Count("interior_ways_decided", decided)
+}
+
+// symSq evaluates the SQUARE of v: square roots and absolute values dissolve.
+func (se *symEval) symSq(v ssa.Value, ctx *symCtx) (eng.RatFn, bool) {
+	se.depth++
+	defer func() { se.depth-- }()
+	if se.depth > 200 {
+		return eng.RatFn{}, false
+	}
+	switch x := v.(type) {
+	case *ssa.Call:
+		if eng.IsCallTo(x, "math", "Sqrt") && len(x.Call.Args) == 1 {
+			return se.sym(x.Call.Args[0], ctx)
+		}
+		if eng.IsCallTo(x, "math", "Abs") && len(x.Call.Args) == 1 {
+			return se.symSq(x.Call.Args[0], ctx)
+		}
+		g := x.Call.StaticCallee()
+		if g != nil && core.InModule(g) && len(g.Blocks) > 0 && len(g.Params) == len(x.Call.Args) {
+			rets := se.returnsOf(g)
+			k := 0
+			if len(rets) > 1 {
+				var ok bool
+				if k, ok = se.choice[g]; !ok {
+					se.need(g, len(rets))
+					return eng.RatFn{}, false
+				}
+			}
+			if len(rets) > 0 && len(rets[k].Results) == 1 {
+				return se.symSq(rets[k].Results[0], &symCtx{fn: g, call: x, parent: ctx})
+			}
+		}
+		return eng.RatFn{}, false
+	case *ssa.BinOp:
+		if x.Op == token.MUL || x.Op == token.QUO {
+			a, ok := se.symSq(x.X, ctx)
+			if !ok {
+				return a, false
+			}
+			b, ok := se.symSq(x.Y, ctx)
+			if !ok {
+				return b, false
+			}
+			if x.Op == token.MUL {
+				return a.Mul(b), true
+			}
+			return a.Div(b)
+		}
+	case *ssa.Phi:
+		k, ok := se.choice[x.Block()]
+		if !ok {
+			se.need(x.Block(), len(x.Edges))
+			return eng.RatFn{}, false
+		}
+		return se.symSq(x.Edges[k], ctx)
+	}
+	a, ok := se.sym(v, ctx)
+	if !ok {
+		return a, false
+	}
+	return a.Mul(a), true
+}
+
+type pointSegTarget struct {
+	rel, name string
+	dims      int64
+}
+
+// pointSegmentFormulaRule (C15, C20): what a point-to-segment distance function returns is, on every way through
+// it, the distance to one of the segment's end points or the distance to the segment's line, as an identity.
+func pointSegmentFormulaRule(p *core.Program, r *core.Report, rule string, targets []pointSegTarget, floor int) {
+	r.Rule(rule, "POLY: for each point-to-segment distance function (three coordinate parameters; the point is whichever parameter makes all ways agree) and each way through it (return site x predecessor choices of its phis), the returned value - or its square, when it is written with math.Sqrt / math.Abs - is identically |P-A|^2, |P-B|^2 or the squared distance to the line AB, |P-A|^2 - ((P-A).(B-A))^2 / |B-A|^2, as rational functions of the input ordinates (2 or 3 per coordinate): a projection parameter with the wrong sign or denominator, a foot point built from the wrong end, a cross product with swapped factors do not satisfy any of the three. Which of the three applies where is the business of segment-distance-clamped; ways the evaluator cannot follow are not decided", floor)
+	for _, t := range targets {
+		fn := mustFn(p, r, rule, t.rel, t.name)
+		if fn == nil {
+			continue
+		}
+		var cps []*ssa.Parameter
+		for _, q := range fn.Params {
+			if isFloatSliceLike(q.Type()) {
+				cps = append(cps, q)
+			}
+		}
+		if len(cps) != 3 {
+			r.OK(rule, short(fn), p.Pos(fn.Pos()), false, "not a function of three coordinates: not decided")
+			continue
+		}
+		vars := func(prm *ssa.Parameter, idx int64) eng.Poly {
+			for i, q := range cps {
+				if q == prm {
+					return eng.PolyVar(fmt.Sprintf("%c%d", 'P'+i, idx))
+				}
+			}
+			return eng.PolyVar("unknown")
+		}
+		v := func(i int, k int64) eng.Poly { return eng.PolyVar(fmt.Sprintf("%c%d", 'P'+i, k)) }
+		// expected values for the assignment (point, a, b) = (cps[pi], cps[ai], cps[bi])
+		expected := func(pi, ai, bi int) []eng.RatFn {
+			pa2, pb2, ab2, dot := eng.Poly{}, eng.Poly{}, eng.Poly{}, eng.Poly{}
+			for k := int64(0); k < t.dims; k++ {
+				dpa := v(pi, k).Add(v(ai, k), -1)
+				dpb := v(pi, k).Add(v(bi, k), -1)
+				dab := v(bi, k).Add(v(ai, k), -1)
+				pa2 = pa2.Add(dpa.Mul(dpa), 1)
+				pb2 = pb2.Add(dpb.Mul(dpb), 1)
+				ab2 = ab2.Add(dab.Mul(dab), 1)
+				dot = dot.Add(dpa.Mul(dab), 1)
+			}
+			line := eng.RatFn{N: pa2.Mul(ab2).Add(dot.Mul(dot), -1), D: ab2}
+			return []eng.RatFn{eng.RatOfPoly(pa2), eng.RatOfPoly(pb2), line}
+		}
+		// the ways: return sites x phi choices
+		type way struct {
+			ret    *ssa.Return
+			choice map[interface{}]int
+		}
+		var ways []way
+		top := &symCtx{fn: fn}
+		finite := finiteReach(fn)
+		for _, b := range fn.Blocks {
+			ret, ok := b.Instrs[len(b.Instrs)-1].(*ssa.Return)
+			if !ok || len(ret.Results) != 1 || !finite[b] {
+				continue
+			}
+			var enumerate func(ch map[interface{}]int)
+			enumerate = func(ch map[interface{}]int) {
+				if len(ways) > 64 {
+					return
+				}
+				se := &symEval{p: p, choice: ch, vars: vars}
+				se.symSq(ret.Results[0], top)
+				if se.pending == nil {
+					cp := map[interface{}]int{}
+					for k, v := range ch {
+						cp[k] = v
+					}
+					ways = append(ways, way{ret, cp})
+					return
+				}
+				key, n := se.pending, se.npend
+				// only predecessor choices compatible with reaching this return are ways
+				for i := 0; i < n; i++ {
+					if blk, isB := key.(*ssa.BasicBlock); isB && blk.Parent() == fn {
+						if !(blk.Preds[i] == ret.Block() || eng.Reachable(blk.Preds[i], nil)[ret.Block()]) {
+							continue
+						}
+					}
+					ch[key] = i
+					enumerate(ch)
+				}
+				delete(ch, key)
+			}
+			enumerate(map[interface{}]int{})
+		}
+		type val struct {
+			plain, sq eng.RatFn
+			ok        bool
+			pos       string
+		}
+		var vals []val
+		for _, w := range ways {
+			se := &symEval{p: p, choice: w.choice, vars: vars}
+			sq, ok1 := se.symSq(w.ret.Results[0], top)
+			se2 := &symEval{p: p, choice: w.choice, vars: vars}
+			pl, ok2 := se2.sym(w.ret.Results[0], top)
+			if !ok2 {
+				pl = eng.RatFn{N: eng.PolyVar("uninterpreted"), D: eng.PolyConst(big.NewRat(1, 1))}
+			}
+			vals = append(vals, val{pl, sq, ok1, p.Pos(w.ret.Pos())})
+		}
+		equal := func(a, b eng.RatFn) bool { return a.N.Mul(b.D).Equal(b.N.Mul(a.D)) }
+		bestBad, bestDecided := "", -1
+		for _, as := range [][3]int{{0, 1, 2}, {1, 0, 2}, {2, 0, 1}} {
+			exp := expected(as[0], as[1], as[2])
+			for _, squaredFn := range []bool{false, true} {
+				bad, decided := "", 0
+				for _, x := range vals {
+					if !x.ok {
+						continue
+					}
+					got := x.sq
+					if squaredFn {
+						got = x.plain
+					}
+					match := false
+					for _, e := range exp {
+						if equal(got, e) {
+							match = true
+						}
+					}
+					decided++
+					if !match && bad == "" {
+						bad = fmt.Sprintf("the value returned at %s is none of |P-A|^2, |P-B|^2 and the squared distance to the line AB (with P = %s)", x.pos, cps[as[0]].Name())
+					}
+				}
+				if bad == "" && decided > bestDecided {
+					bestBad, bestDecided = "", decided
+				}
+				if bestDecided < 0 || (bestBad != "" && bad == "") {
+					bestBad, bestDecided = bad, decided
+				}
+			}
+		}
+		if bestDecided <= 0 && bestBad == "" {
+			r.OK(rule, short(fn), p.Pos(fn.Pos()), false, fmt.Sprintf("%d ways, none could be followed: not decided", len(vals)))
+			continue
+		}
+		r.Check(bestBad == "", rule, short(fn), p.Pos(fn.Pos()), true, fmt.Sprintf("%d ways, %d decided: each returns an end-point distance or the distance to the line", len(vals), bestDecided), bestBad+": the formula is not a distance from the point to the segment")
+	}
+}
+
+// intersectionOnBothLinesRule (C12): the point the homogeneous-coordinates kernel computes lies on both lines.
+func intersectionOnBothLinesRule(p *core.Program, r *core.Report, rule string) {
+	r.Rule(rule, "POLY: the point hcoords.GetIntersection builds and returns (on its non-error return) satisfies (P-A)x(B-A) == 0 and (P-C)x(D-C) == 0 as rational identities in the eight input ordinates: it is the intersection of the two infinite lines. A swapped operand, a sign slip or an ordinate taken from the wrong end point in one of the nine products fails one of the identities. Rounding is not decided (the caller's envelope test and central-end-point fall-back deal with it)", 1)
+	fn := mustFn(p, r, rule, "xy/internal/hcoords", "GetIntersection")
+	if fn == nil || len(fn.Params) != 4 {
+		return
+	}
+	vars := func(prm *ssa.Parameter, idx int64) eng.Poly {
+		for i, q := range fn.Params {
+			if q == prm {
+				return eng.PolyVar(fmt.Sprintf("%c%d", 'A'+i, idx))
+			}
+		}
+		return eng.PolyVar("unknown")
+	}
+	top := &symCtx{fn: fn}
+	n := 0
+	for _, b := range fn.Blocks {
+		ret, ok := b.Instrs[len(b.Instrs)-1].(*ssa.Return)
+		if !ok || len(ret.Results) < 1 {
+			continue
+		}
+		base := ret.Results[0]
+		if eng.IsNilConst(base) {
+			continue
+		}
+		se := &symEval{p: p, choice: map[interface{}]int{}, vars: vars}
+		x, ok1 := se.elem(base, 0, top)
+		y, ok2 := se.elem(base, 1, top)
+		n++
+		key := fmt.Sprintf("%s/result#%d", short(fn), n)
+		if !ok1 || !ok2 {
+			r.OK(rule, key, p.Pos(ret.Pos()), false, "the returned point is not a rational function the evaluator can follow: not decided")
+			continue
+		}
+		V := func(c byte, k int) eng.RatFn { return eng.RatOfPoly(eng.PolyVar(fmt.Sprintf("%c%d", c, k))) }
+		cross := func(s, e byte) eng.RatFn {
+			// (P - S) x (E - S)
+			px, py := x.Add(V(s, 0), -1), y.Add(V(s, 1), -1)
+			ex, ey := V(e, 0).Add(V(s, 0), -1), V(e, 1).Add(V(s, 1), -1)
+			return px.Mul(ey).Add(py.Mul(ex), -1)
+		}
+		c1, c2 := cross('A', 'B'), cross('C', 'D')
+		r.Check(c1.IsZero() && c2.IsZero(), rule, key, p.Pos(ret.Pos()), true, "on line AB and on line CD identically",
+			fmt.Sprintf("the point returned at %s is not the intersection of the two lines (on line 1: %v, on line 2: %v as identities): one of the products of the homogeneous form is wrong", p.Pos(ret.Pos()), c1.IsZero(), c2.IsZero()))
+	}
+	if n == 0 {
+		r.Lost(rule, short(fn)+"/result", "GetIntersection returns no point")
+	}
 }
